@@ -184,6 +184,13 @@ func runC09(args []string) error {
 		{MiB, MiB, MiB, MiB - 1100, 5, 5, 5},            // small pairs after a nearly full message
 		{100, 2 * MiB, 100, 2 * MiB, 100, 2 * MiB, 100}, // alternating
 	}
+	// many small pairs: the per-pair framing overhead of the wire format adds up (a size estimate that counts key and
+	// value bytes only would overshoot the transport limit here)
+	many := make([]int, 4400)
+	for i := range many {
+		many[i] = 1000
+	}
+	layouts = append(layouts, many)
 	nz := len(layouts)
 	if rf.Tier == "thorough" {
 		for i := 0; i < 30*rf.Scale; i++ {
@@ -210,6 +217,9 @@ func runC09(args []string) error {
 		var pairs [][2][]byte
 		for i, vl := range lay {
 			k := []byte(fmt.Sprintf("k%02d", i))
+			if len(lay) > 100 {
+				k = []byte(fmt.Sprintf("k%05d", i))
+			}
 			v := bytes.Repeat([]byte{byte('a' + i)}, vl)
 			pairs = append(pairs, [2][]byte{k, v})
 			es = append(es, gEntry{Idx: uint64(i + 1), Cmd: gCmd{Kind: regattapb.Command_PUT, K: k, V: v}})
@@ -236,6 +246,9 @@ func runC09(args []string) error {
 					return err
 				}
 				in := map[string]any{"value_lengths": fmt.Sprint(lay), "request": q.String()}
+				if len(lay) > 100 {
+					in["value_lengths"] = fmt.Sprintf("%d values of %d bytes", len(lay), lay[0])
+				}
 				rangeOracle(sum, 100000+li, in, q, pairs, un, st)
 				var parts, ps []string
 				for _, m := range st {
@@ -243,11 +256,21 @@ func runC09(args []string) error {
 				}
 				for i, vl := range lay {
 					_ = i
-					ps = append(ps, fmt.Sprintf("(3, %d)", vl))
+					if len(lay) > 100 {
+						ps = append(ps, fmt.Sprintf("(6, %d)", vl))
+					} else {
+						ps = append(ps, fmt.Sprintf("(3, %d)", vl))
+					}
 				}
 				modeS := []string{"MFull", "MKeys", "MCount"}[mode]
+				if len(lay) > 100 && (rf.Tier != "thorough" || limit != 0) {
+					// the model evaluates this layout in minutes (quadratic size computation in N arithmetic): the quick tier
+					// keeps the real run and the oracle, the thorough tier also evaluates the model on the unlimited requests
+					sum.Evaluations++
+					continue
+				}
 				zf.Add(fmt.Sprintf("{| z_pairs := %s; z_mode := %s; z_limit := %s; z_impl := %s |}", cList(ps), modeS, cZ(limit), oLs(parts)),
-					fmt.Sprintf("values %v limit %d mode %s", lay, limit, modeS))
+					fmt.Sprintf("values %.80v limit %d mode %s", fmt.Sprint(lay), limit, modeS))
 				sum.Evaluations++
 				sum.DistinctNontrivial++
 				hz.Inc(fmt.Sprintf("messages=%d", len(st)))
